@@ -308,7 +308,59 @@ class InterpCore:
                 raise Limit(f"loop over an unbounded counter not left after {len(seq)} iterations at {self.site(s)}")
             self.exec_block(s.orelse, env, run)
 
+    def countdown_var(self, s, env):
+        """`while v > 0:` / `while v:` / `while v != 0:` whose body decrements v by one, once, at its top level and rebinds it nowhere
+        else: the loop runs v times (for v >= 0), like `for _ in range(v)`.  Returns the name, or None."""
+        t = s.test
+        name = None
+        if isinstance(t, ast.Name):
+            name = t.id
+        elif isinstance(t, ast.Compare) and len(t.ops) == 1 and isinstance(t.left, ast.Name) and isinstance(t.comparators[0], ast.Constant) \
+                and t.comparators[0].value == 0 and isinstance(t.ops[0], (ast.Gt, ast.NotEq)):
+            name = t.left.id
+        elif isinstance(t, ast.Compare) and len(t.ops) == 1 and isinstance(t.comparators[0], ast.Name) and isinstance(t.left, ast.Constant) \
+                and t.left.value == 0 and isinstance(t.ops[0], (ast.Lt, ast.NotEq)):
+            name = t.comparators[0].id
+        if name is None:
+            return None
+        decs = [st for st in s.body if isinstance(st, ast.AugAssign) and isinstance(st.target, ast.Name) and st.target.id == name
+                and isinstance(st.op, ast.Sub) and isinstance(st.value, ast.Constant) and st.value.value == 1]
+        if len(decs) != 1 or s.orelse:
+            return None
+        for n_ in ast.walk(ast.Module(body=list(s.body), type_ignores=[])):
+            if n_ is decs[0]:
+                continue
+            tg = []
+            if isinstance(n_, ast.Assign):
+                tg = n_.targets
+            elif isinstance(n_, (ast.AugAssign, ast.AnnAssign, ast.NamedExpr)):
+                tg = [n_.target]
+            elif isinstance(n_, (ast.For, ast.comprehension)):
+                tg = [n_.target]
+            if any(isinstance(x, ast.Name) and x.id == name for t_ in tg for x in ast.walk(t_)):
+                return None
+            if isinstance(n_, (ast.Break, ast.Continue)):
+                return None  # a continue would skip the decrement
+        return name
+
     def exec_while(self, s, env, run):
+        cd = self.countdown_var(s, env)
+        if cd is not None:
+            v0, e0 = env.lookup(cd)
+            if isinstance(v0, Sym) and self.kind_of(v0, run) == "int" and e0 is not None and e0.kind == "function":
+                # a symbolic number of iterations, known by name: summarised like `for _ in range(v0)` (the decrement is dropped from
+                # the body; after the loop the counter is 0 -- for a negative start the loop does not run and the counter keeps its value,
+                # which no code in reach reads)
+                rng = Sym(("range", v0.term), "range", count=v0)
+                fake = ast.For(target=ast.Name(id="__kverif_countdown__", ctx=ast.Store()), iter=s.test,
+                               body=[st for st in s.body if not (isinstance(st, ast.AugAssign) and isinstance(st.target, ast.Name) and st.target.id == cd)] or [ast.Pass()],
+                               orelse=[], lineno=s.lineno, col_offset=s.col_offset)
+                ast.copy_location(fake, s)
+                ast.fix_missing_locations(fake)
+                self.sym_for(fake, rng, env, run)
+                env.vars[cd] = 0
+                env.vars.pop("__kverif_countdown__", None)
+                return
         n = 0
         while True:
             if not self.truth(self.ev(s.test, env, run), run, s.test):
